@@ -177,6 +177,10 @@ def run_task(task):
     stats = Stats()
     main = pr.crates['cli']['main']
 
+    # a counterexample is replayed against the real binary: prefer models that a real project can realise
+    # (some user file; error level <=> parse error id, warning level <=> analysis finding id; located reports)
+    realizable = z3.And(z3.Or(*user), *[(cats[i] == disc['Error']) if codes[i] == 'ParseFail' else (cats[i] == disc['Warning']) for i in range(n)])
+
     def post(ex, res):
         rec = ex.notes.get('rec')
         if rec is None: raise Unsupported('main did not parse options')
@@ -191,9 +195,9 @@ def run_task(task):
             shown = ('r%d' % i) in rec.emitted
             ex.oblige(simp(eq(zbool(c) if is_sym(c) else c, shown)) if is_sym(c) else (c == shown), 'filter-law',
                       'report r%d (%s): displayed iff level >= --level, id not allowed, not located solely in included files' % (i, codes[i]),
-                      extra={'report': i, 'shown': shown})
+                      extra={'report': i, 'shown': shown}, prefer=realizable)
             if shown: want.append('r%d' % i)
-        ex.oblige(rec.emitted == want, 'exactly-once', 'every displayed report is displayed exactly once, in the order offered (got %s)' % rec.emitted)
+        ex.oblige(rec.emitted == want, 'exactly-once', 'every displayed report is displayed exactly once, in the order offered (got %s)' % rec.emitted, prefer=realizable)
         ndisp = len(rec.emitted)
         code = res.name if isinstance(res, FnItem) else repr(res)
         ex.oblige(('SUCCESS' in code) == (ndisp == 0) and ('SUCCESS' in code or 'FAILURE' in code), 'exit-status', 'exit status 0 iff nothing was displayed (displayed %d, exit %s)' % (ndisp, code))
@@ -208,7 +212,7 @@ def run_task(task):
                 okm = tmpl is not None and b' issues found.' in tmpl and simp(eq(val, ndisp)) is True
         ex.oblige(okm, 'summary', 'summary line states the number of displayed diagnostics (%d), got %r' % (ndisp, last))
         if task['sarif']:
-            ex.oblige(rec.sarif_calls == 1 and rec.sarif == rec.emitted, 'sarif-set', 'the SARIF file holds exactly the displayed findings (sarif %s, displayed %s)' % (rec.sarif, rec.emitted))
+            ex.oblige(rec.sarif_calls == 1 and rec.sarif == rec.emitted, 'sarif-set', 'the SARIF file holds exactly the displayed findings (sarif %s, displayed %s)' % (rec.sarif, rec.emitted), prefer=realizable)
         else:
             ex.oblige(rec.sarif_calls == 0, 'sarif-set', 'no SARIF output unless requested')
 
